@@ -309,10 +309,12 @@ class StubCursor:
         except TypeError:
             # a bound value of another type than the column (only concrete values get here): outside the evaluator's
             # fragment - ask real sqlite3
+            from crosshair.core import deep_realize
+            crows = [tuple(deep_realize(x) for x in r) for r in self.conn.rows]
             db = sqlite3.connect(":memory:")
             db.execute("CREATE TABLE t (id INTEGER, a INTEGER, b TEXT)")
-            db.executemany("INSERT INTO t VALUES (?, ?, ?)", [tuple(r) for r in self.conn.rows])
-            out = [tuple(r) for r in db.execute(sql, list(params))]
+            db.executemany("INSERT INTO t VALUES (?, ?, ?)", crows)
+            out = [tuple(r) for r in db.execute(deep_realize(sql), [deep_realize(x) for x in params])]
             db.close()
         self._rows = out
 
